@@ -1,13 +1,12 @@
 SPECIFICATION Spec
 CONSTANTS
   Names = {"a", "A", "b"}
-  Vals = {"1", "2"}
-  SetPathKids = 0
-  MaxKids = 3
+  Vals = {"1"}
+  SetPathKids = 2
+  MaxKids = 1
 INVARIANT SetGet
 INVARIANT DelShrinks
 INVARIANT MergeOne
 INVARIANT EnsureHas
 VIEW View
-ACTION_CONSTRAINT Emit
 CHECK_DEADLOCK FALSE
